@@ -11,6 +11,18 @@ from .common import FIELD, MESH, REGION
 from .c01 import each, _single_return
 
 FLOOR = 40
+ANCHORS = [
+    'mesh.Mesh._sel_convert_input',
+    'mesh.Mesh.sel',
+    'mesh.Mesh.__getitem__',
+    'mesh.Mesh.region2slices',
+    'mesh.Mesh.pad',
+    'field.Field.sel',
+    'field.Field.__getitem__',
+    'field.Field.pad',
+    'field.Field.resample',
+    'util.util.assemble_index',
+]   # functions whose code the property is anchored in (mutation analysis, evidence)
 
 
 def assigns_to(v, name, stmts=None):
@@ -41,6 +53,10 @@ def run(chk):
     d6_region2slices(chk, repo)
     d7_resample(chk, repo)
     corner_copies_hold_floats(chk, repo, "C07", ["mesh.Mesh._sel_convert_input", "mesh.Mesh.sel", "mesh.Mesh.pad"])
+    d8_wiring_and_dispatch(chk, repo)
+    chk.rule("C07.validity", "validity is selected / sliced / padded / resampled with the same arguments as the data (rules of C08.D3)")
+    from . import c08
+    c08.d3_mapped(chk, repo)
     chk.trust("np.pad pads each axis by the (before, after) widths given for it; basic slicing selects the half-open index range")
     chk.assume("which cell contains a coordinate that is not exactly representable, nearest-cell ties and point-wise equality of "
                "values are not decided")
@@ -472,3 +488,140 @@ def corner_copies_hold_floats(chk, repo, pid, quals, floor=8):
                        "dtype: with integer corners the stored coordinate is truncated (the selected plane / face moves to "
                        "another cell)", v.f, st)
     chk.require(n >= floor, f"{pid}.corner-dtype: only {n} corner-copy stores found ({floor} confirmed by reading)")
+
+
+# ------------------------------------------------------------------ D8
+def _corner_sources(v, t):
+    """which corner attributes a corner-array term is derived from: subset of {'pmin', 'pmax'} plus the owner term"""
+    out = set()
+
+    def collect(x, depth=0):
+        if depth > 30:
+            return
+        for aid in x.atom_ids():
+            hd, ar = v.ctx.atoms[aid]
+            if hd[0] == "attr" and hd[1] in ("_pmin", "_pmax"):
+                out.add((hd[1][1:], v.show(ar[0])))
+                continue
+            if hd[0] in ("attr", "prop") and hd[1] in ("pmin", "pmax"):
+                out.add((hd[1], v.show(ar[0])))
+                continue
+            if hd[0] == "call" and hd[1] in ("astype", ".astype") and ar:
+                collect(ar[0], depth + 1)              # the converted array, not the dtype expression
+                continue
+            if hd[0] == "sub" and ar:
+                collect(ar[0], depth + 1)              # the indexed array, not the index
+                continue
+            if hd[0] == "call" and hd[1] == "len":
+                continue
+            for y in ar:
+                collect(y, depth + 1)
+
+    def rec(x, depth=0):
+        h = v.ctx.head_of(x)
+        if depth > 40:
+            return
+        if h and h[0] == "store":
+            rec(v.ctx.args_of(x)[0], depth + 1)        # the array that is modified, not the values written into it
+        elif h and h[0] == "mut":
+            for y in v.ctx.args_of(x):
+                rec(y, depth + 1)                      # a list: what it was and what is appended
+        elif h and h[0] == "phi":
+            for y in v.ctx.args_of(x):
+                rec(y, depth + 1)
+        elif h and h[0] == "carried":
+            return
+        else:
+            collect(x)
+    rec(t)
+    return out
+
+
+def d8_wiring_and_dispatch(chk, repo):
+    chk.rule("C07.D8", "every Region built by Mesh.sel / Mesh.pad gets one corner derived from pmin and the other from pmax of the "
+                       "same source region (mesh region, or the subregion being kept); Field.pad forwards mode and extra keywords; "
+                       "_sel_convert_input accepts exactly one dimension, a number or a pair of numbers, and refuses the rest")
+    for q in ("mesh.Mesh.sel", "mesh.Mesh.pad"):
+        v = FV(repo, q)
+        n = 0
+        for s_ in v.ctor_sites(REGION):
+            p1, p2 = s_.args.get("p1"), s_.args.get("p2")
+            n += 1
+            if p1 is None or p2 is None:
+                chk.ob(f"{q}::region#{n}::both-corners", False, "C07.D8", f"`{v.src(s_.call)[:80]}` does not pass both corners", v.f, s_.call)
+                continue
+            a, b = _corner_sources(v, p1), _corner_sources(v, p2)
+            owners = {o for k, o in a | b}
+            ok = len(owners) == 1 and {k for k, o in a} | {k for k, o in b} == {"pmin", "pmax"} and \
+                {k for k, o in a} != {k for k, o in b} and len({k for k, o in a}) == 1 and len({k for k, o in b}) == 1
+            chk.ob(f"{q}::region#{n}::corner-sources", ok, "C07.D8",
+                   f"`{v.src(s_.call)[:70]}`: p1 derives from {sorted(a)}, p2 from {sorted(b)}; one must come from pmin and the other "
+                   "from pmax of one and the same region", v.f, s_.call)
+        chk.require(n >= (3 if q.endswith("sel") else 1), f"{q}: only {n} Region constructions found")
+    # plane branch: subregion corners appended per kept axis
+    v = FV(repo, "mesh.Mesh.sel")
+    sr = v.ctx.mk(("unpack", 1), (each(v, v.spec("self.subregions.items()")),))
+    got = set()
+    for nm, st, t in appends(v, v.stmts()):
+        h = v.ctx.head_of(t)
+        if h and h[0] == "sub":
+            base = v.ctx.args_of(t)[0]
+            if v.eq(base, v.spec("S.pmin", env={"S": sr})):
+                got.add("pmin")
+            if v.eq(base, v.spec("S.pmax", env={"S": sr})):
+                got.add("pmax")
+    chk.ob("mesh.Mesh.sel::plane::subregion-corners", got == {"pmin", "pmax"}, "C07.D8",
+           f"kept subregions of a plane selection must copy their pmin[j] and pmax[j] for the kept axes; found {sorted(got)}", v.f)
+    f = FV(repo, "field.Field.pad")
+    for r, x in cm.returned_news(f):
+        c = decode_call(f.ctx, x.get("value")) if x.get("value") is not None else None
+        ok = bool(c and c[0] == "np.pad" and is_sym(f.ctx, c[2].get("mode", f.ctx.const(0)), "param:mode") and
+                  "**" in c[2] and is_sym(f.ctx, c[2]["**"], "param:kwargs"))
+        chk.ob("field.Field.pad::mode-and-options-forwarded", ok, "C07.D8",
+               f"data padding {f.show(x.get('value'))[:120]}: must use the caller's mode and extra keywords", f.f, r)
+    s = FV(repo, "mesh.Mesh._sel_convert_input")
+    for cond, exc, key in (("len(args) > 1 or len(kwargs) > 1", "ValueError", "one-dimension-at-a-time"),):
+        ok, det = s.guard(cond, exc=(exc,))
+        chk.ob(f"mesh.Mesh._sel_convert_input::{key}", ok, "C07.D8", det, s.f)
+    chain = [st for st in s.body if isinstance(st, ast.If) and not always_raises(st.body)]
+    okd = False
+    if chain:
+        from .c01 import _branch_conditions
+        conds, tail = _branch_conditions(s, chain[0])
+        okd = len(conds) == 2 and s.eq(conds[0][0], s.spec("args and (not kwargs)")) and \
+            s.eq(conds[1][0], s.spec("(not args) and kwargs")) and always_raises(tail)
+    chk.ob("mesh.Mesh._sel_convert_input::positional-xor-keyword", okd, "C07.D8",
+           "either one positional dimension or one keyword (dimension=value) - anything else raises ValueError", s.f)
+    rng = None
+    for st in s.stmts():
+        if isinstance(st, ast.If):
+            ct = s.ev.term(st.test, at=st)
+            c = decode_call(s.ctx, ct)
+            if c and c[0] == "isinstance" and is_sym(s.ctx, c[1][1], "numbers.Real") and not always_raises(st.body):
+                rng = (st, c[1][0])
+    okr = False
+    if rng:
+        from .c01 import _branch_conditions
+        conds, tail = _branch_conditions(s, rng[0])
+        okr = len(conds) == 2 and s.eq(conds[1][0], s.spec("isinstance(R, (tuple, list, np.ndarray))", env={"R": rng[1]})) and \
+            always_raises(tail)
+        R = rng[1]
+        ok2 = geom._guard_in_function_env(s, "len(R) != 2", {"R": R}) if hasattr(geom, "_guard_in_function_env") else None
+    chk.ob("mesh.Mesh._sel_convert_input::value-kinds", okr, "C07.D8",
+           "the selection value is a real number (plane) or a tuple/list/array (range); anything else raises TypeError", s.f)
+    if rng:
+        okp = oke = okn = False
+        for r_, n_ in s.raises():
+            par = s.cfg.parent.get(id(r_))
+            if par and isinstance(par[0], ast.If) and par[1] == "body":
+                ct = s.ev.term(par[0].test, at=par[0])
+                if s.eq(ct, s.spec("len(R) != 2", env={"R": rng[1]})) and n_ == "ValueError":
+                    okp = True
+                if s.eq(ct, s.spec("not all(isinstance(p, numbers.Real) for p in R)", env={"R": rng[1]})) and n_ == "TypeError":
+                    oke = True
+        chk.ob("mesh.Mesh._sel_convert_input::range-has-two-reals", okp and oke, "C07.D8",
+               "a range must consist of exactly two real numbers (ValueError / TypeError otherwise)", s.f)
+        # no value -> the central cell
+        none_branch = [st for st in s.stmts() if isinstance(st, ast.If) and s.eq(s.ev.term(st.test, at=st), s.spec("R is not None", env={"R": rng[1]}))]
+        chk.ob("mesh.Mesh._sel_convert_input::default-is-centre", len(none_branch) == 1 and bool(none_branch[0].orelse), "C07.D8",
+               "without a value the plane through the region's centre is selected", s.f)
